@@ -4,6 +4,7 @@ import (
 	"bytes"
 	"encoding/json"
 	"fmt"
+	"go.amzn.com/lambda/rapi/handler"
 	"reflect"
 	"strings"
 	"unicode/utf8"
@@ -360,6 +361,13 @@ type viol struct{ clause, sig, msg string }
 func judgeCause(s causeSpec, doc []byte, sc strCache) (outClass string, out []byte, vs []viol) {
 	out, err := model.ValidatedErrorCauseJSON(doc)
 	add := func(clause, sig, f string, a ...any) { vs = append(vs, viol{clause, sig, fmt.Sprintf(f, a...)}) }
+	// the handler's own step (header route) passes on exactly what the validation yields, nothing when it drops
+	if len(doc) > 0 && len(doc) < 200000 {
+		viaHandler := handler.VerifValidatedErrorCause(string(doc))
+		if (err != nil && viaHandler != nil) || (err == nil && string(viaHandler) != string(out)) {
+			add("b5/b6-non-cause-dropped", "errorcause-handler-bypasses-validation", "the invocation-error handler passes on %q for the cause header %q; the validation yields %q (err=%v)", clip(string(viaHandler), 120), clip(string(doc), 120), clip(string(out), 120), err)
+		}
+	}
 
 	if s.Malformed != "" {
 		if err == nil {
